@@ -165,14 +165,22 @@ Proof. exact run_never_stuck_lts. Qed.
 Print Assumptions run_never_stuck.
 
 (* Positively: whenever run is in the hand-over select its waiter exists and
-   is at most two of ITS OWN always-enabled steps away from a state in which
-   run's select is ready. *)
+   is at most two of ITS OWN enabled steps away from a state in which run's
+   select is ready -- or the waiter is itself still handing its request to a
+   peer that has stopped reading (a hostile router that answers a request it
+   has not read): then Close()'s EndRecv frees run ([run_released_by_endrecv]). *)
 Theorem run_is_released : forall s k,
   reachable true s -> r_pc s = RSend k ->
   exists w tr, wlookup (ws s) k = Some w /\ (List.length tr <= release_rank (w_pc w))%nat /\
-               waiter_path true k s tr /\ run_move_enabled true (exec true s tr).
+               waiter_path true k s tr /\
+               (run_move_enabled true (exec true s tr) \/ (w_pc w = WSending /\ router_reads s = false)).
 Proof. exact run_unblocks. Qed.
 Print Assumptions run_is_released.
+
+Theorem run_released_by_endrecv : forall s k,
+  r_pc s = RSend k -> recv_done s = true -> enabled true s LRunSeeRecvDone = true.
+Proof. exact ClientLtsProofs.run_released_by_endrecv. Qed.
+Print Assumptions run_released_by_endrecv.
 
 (* the same statement for the client AS IT IS in the unrepaired tree
    (run selects on {reply, Done} only) is refuted: a reply looked up just
@@ -194,15 +202,36 @@ Print Assumptions run_steps_consume.
 
 (* ================= every API call returns ===================================== *)
 
-(* goroutine level: a waiting API goroutine always has an enabled step of its
-   own, except a Call in its first select while the connection is up (it waits
-   for its reply, its context, or Done) ... *)
+(* goroutine level: an API goroutine that has not returned always has an
+   enabled step of its own, except (a) a Call in its first select while the
+   connection is up (it waits for its reply, its context, or Done) and (b) a
+   goroutine handing its request to a peer that has stopped reading while the
+   client has not stopped -- in the repaired client (g = true) Done releases
+   it ([send_released_by_done]) ... *)
 Theorem api_always_returns : forall g s k w,
   reachable g s -> wlookup (ws s) k = Some w -> w_pc w <> WReturned ->
   (exists l, waiter_label_of l = Some k /\ internal_waiter_label l = true /\ enabled g s l = true)
-  \/ (w_call w = true /\ w_pc w = WSelect /\ done s = false /\ enabled g s (LCtx k) = true).
+  \/ (w_call w = true /\ w_pc w = WSelect /\ done s = false /\ enabled g s (LCtx k) = true)
+  \/ (w_pc w = WSending /\ router_reads s = false /\ (g && done s) = false).
 Proof. exact api_always_returns_lts. Qed.
 Print Assumptions api_always_returns.
+
+Theorem send_released_by_done : forall s k w,
+  wlookup (ws s) k = Some w -> w_pc w = WSending -> done s = true ->
+  enabled true s (LSendSeesDone k) = true.
+Proof. exact ClientLtsProofs.send_released_by_done. Qed.
+Print Assumptions send_released_by_done.
+
+(* the client as it was (requests handed over with a plain send) is refuted:
+   a request issued when the peer's writer has just gone is never handed
+   over; the end of the transport and Done do not release it -- the API call
+   never returns, whatever happens next (fixes/C17-send-after-transport-end) *)
+Theorem api_send_stuck_unguarded_refuted :
+  exists tr, let s := exec false init tr in
+    done s = true /\ recv_closed s = true /\
+    forall tr', exists w, wlookup (ws (exec false s tr')) 1 = Some w /\ w_pc w = WSending.
+Proof. exact ClientLtsProofs.api_send_stuck_unguarded_refuted. Qed.
+Print Assumptions api_send_stuck_unguarded_refuted.
 
 (* ... and every such step brings it strictly closer to its return. *)
 Theorem api_steps_terminate : forall g s l k w s',
@@ -261,7 +290,7 @@ Print Assumptions peer_closed_only_by_close.
 
 Example close_nonvacuous :
   let s := exec true init
-     [LNewWaiter 1 false; LDeliver (MReply 1); LRunTake; LRunLookup; LTimer 1; LDelete 1; LCloseGone 1;
+     [LNewWaiter 1 false; LSent 1; LDeliver (MReply 1); LRunTake; LRunLookup; LTimer 1; LDelete 1; LCloseGone 1;
       LRunGone; LCloseStart; LGoodbyeSent; LDeliver MFinal; LRunTake; LCloseSeeDone; LWgWait; LClosePeer] in
   c_pc s = CReturned /\ done s = true.
 Proof. vm_compute. split; reflexivity. Qed.
